@@ -1,0 +1,26 @@
+// Package verifhook holds instrumentation points used by the external
+// runtime-verification harness. Without the "verif" build tag every function
+// here is an empty, inlinable no-op.
+package verifhook
+
+// Injection / observation point identifiers.
+const (
+	TellHubReceiveEnter uint16 = iota + 1
+	TellHubReceiveBlock
+	TellHubDeliver
+	AskHubServe
+	AskHubDeliver
+	QueueDeliverMid
+	QueueReceiveAfterFn
+	ChannelBeforeSend
+	ChannelGetOrInitWait
+	FragAfterAddPart
+	MbappAfterAddPart
+	P2pkeSwarmAfterDeliver
+	NumPoints
+)
+
+// Emit kinds.
+const (
+	KindCiphertext uint8 = iota + 1
+)
